@@ -27,10 +27,14 @@ class Timestamp:
     def __ne__(self, other: object) -> bool:
         return not self == other
 
-    def __gt__(self, other: "Timestamp") -> bool:
+    def __gt__(self, other: Union["Timestamp", float]) -> bool:
+        if not isinstance(other, Timestamp):
+            return float(self) > other
         return self.nsec > other.nsec if self.sec == other.sec else self.sec > other.sec
 
-    def __lt__(self, other: "Timestamp") -> bool:
+    def __lt__(self, other: Union["Timestamp", float]) -> bool:
+        if not isinstance(other, Timestamp):
+            return float(self) < other
         return self.nsec < other.nsec if self.sec == other.sec else self.sec < other.sec
 
 
